@@ -1,13 +1,33 @@
+//! vharness — drives the real /repo code for the /verif checks and hosts the rs2v translator.
+//! `vharness rs2v <repo> <spec.json> <out_dir>` | `vharness run cNN [args...]` (cases on stdin).
 mod common;
 mod rs2v;
+mod c01;
+mod c02;
+mod c03;
 mod c04;
+mod c05;
+mod c06;
+mod c07;
+mod c08;
+mod c09;
+mod c10;
+mod c11;
+mod c12;
+mod c13;
+mod c14;
+mod c15;
+mod c16;
+mod c17;
+mod c18;
+mod c19;
+mod c20;
 
 fn main() {
     let args: Vec<String> = std::env::args().collect();
     let cmd = args.get(1).map(|s| s.as_str()).unwrap_or("");
     let code = match cmd {
         "rs2v" => {
-            // vharness rs2v <repo> <spec.json> <out_dir>
             if args.len() < 5 {
                 eprintln!("usage: vharness rs2v <repo> <spec.json> <out_dir>");
                 2
@@ -17,8 +37,28 @@ fn main() {
         }
         "run" => {
             common::silence_panics();
+            let rest: &[String] = if args.len() > 3 { &args[3..] } else { &[] };
             match args.get(2).map(|s| s.as_str()).unwrap_or("") {
-                "c04" => c04::run(),
+                "c01" => c01::run(rest),
+                "c02" => c02::run(rest),
+                "c03" => c03::run(rest),
+                "c04" => c04::run(rest),
+                "c05" => c05::run(rest),
+                "c06" => c06::run(rest),
+                "c07" => c07::run(rest),
+                "c08" => c08::run(rest),
+                "c09" => c09::run(rest),
+                "c10" => c10::run(rest),
+                "c11" => c11::run(rest),
+                "c12" => c12::run(rest),
+                "c13" => c13::run(rest),
+                "c14" => c14::run(rest),
+                "c15" => c15::run(rest),
+                "c16" => c16::run(rest),
+                "c17" => c17::run(rest),
+                "c18" => c18::run(rest),
+                "c19" => c19::run(rest),
+                "c20" => c20::run(rest),
                 other => {
                     eprintln!("unknown runner {}", other);
                     std::process::exit(2);
